@@ -9,6 +9,7 @@ import Driver.WtoH
 import Driver.NumH
 import Driver.LinH
 import Driver.EnvH
+import Driver.ArrH
 import Driver.InterH
 import Driver.IDomH
 import Driver.ProgH
@@ -44,6 +45,7 @@ def dispatch (comp op : String) (args res : List Sexp) : Verdict :=
   | "lin" => handleLin op args res
   | "env" => handleEnv op args res
   | "pset" => handlePSet op args res
+  | "arr" => handleArr op args res
   | "inter" => handleInter op args res
   | "idom" => handleIDom op args res
   | "prog" => handleProg op args res
